@@ -9,25 +9,25 @@ T = ('Lean 4 proof on an executable model; tables and arithmetic definitions are
 C = {
  'C01': ("per-line-class render-after-parse laws proved for all inputs (token preservation of the default printer, |parse(fmtFixed nd x) - x| <= 1/2 10^-nd with nd from the regenerated format strings, atom/SFAC/FVAR/UNIT/SIZE/ACTA/STIR/WGHT/SYMM printers, roundtrip_content); whole files compared through an independent lexer (format strings read by spy values through read_string/str(atom), confirmed character by character)",
          "classification/storage done by _parse_cards is sampled, not proved; repr(float) reading back is a hypothesis; Q-peak printing is an open known finding (golden file pins it)"),
- 'C02': ("decide +kernel over the REGENERATED dispatch table of _parse_cards and every card __init__: every valid form of every keyword is accepted in every context and mode (entries_ok, handler_total, dispatch_covers_syntax); parse_reaches_end, modes_agree, quiet_never_raises by induction over the line list; every keyword x form x position x mode run on the real parser",
+ 'C02': ("decide +kernel over the REGENERATED dispatch table of _parse_cards and every card __init__: every valid form of every keyword is accepted in every context and mode (entries_ok, handler_total, dispatch_covers_syntax); parse_reaches_end, modes_agree, quiet_never_raises by induction over the line list; every keyword x form x position x mode run on the real parser; the header as a grammar (header_closed, valid_file_no_raise, valid_file_modes_agree)",
          "tokens abstracted to 6 lexical classes; forms with bounded tails; value-level raises assumed away as listed in `assumed`; atoms with free-variable coded coordinates are an open known finding (test-suite pins is_atom)"),
- 'C03': ("fold invariant over all files on a heap model with shared PART/AFIX/RESI objects (context_invariant, atoms_match_spec), element lookup, derived views as filters, RESI decoding over the form table, include splicing; generated interleavings observed after parsing",
+ 'C03': ("fold invariant over all files on a heap model with shared PART/AFIX/RESI objects (context_invariant, atoms_match_spec), element lookup, derived views as filters, RESI decoding over the form table, include splicing; generated interleavings observed after parsing; one_entry_per_atom_line; the truth rule of instruction objects as a parameter (truthiness_needed_frag/hklf, truthy_rule_is_code)",
          "lexical layer (tokenising, is_atom) outside the Lean model, sampled; n_anisotropic/n_isotropic counts including Q-peaks are open known findings (pinned by tests)"),
  'C04': ("refinement of the concrete line list to an abstract list of logical lines: op_refines per operation, history_refines by induction over arbitrary edit histories, scheme read off the source (extracted_scheme_is_load); bounded-exhaustive and random histories written and lexed after every step",
          "hypothesis Clean (delete_on_write empty, which the repaired parser guarantees); new tokens of setters are by-construction expectations of the harness"),
- 'C05': ("normal form: glue_tokens (the code's gluing yields the spec's logical token lines for every valid layout), layout_preserves_norm for each of the six layout steps, layout_invariance on the closure, class_lookup_ci; metamorphic pairs on the real parser",
+ 'C05': ("normal form: glue_tokens (the code's gluing yields the spec's logical token lines for every valid layout), layout_preserves_norm for each of the six layout steps, layout_invariance on the closure, class_lookup_ci; metamorphic pairs on the real parser; case_invariance (letter case anywhere), include_layout_invariance (include files through read_file)",
          "theorems end at the token lists handed to the dispatcher; consumption of tokens by cards/atoms case-insensitively is sampled; ASCII, no tabs"),
  'C06': ("wrap_width (<= 80 columns), wrap_shape, wrap_tokens, wrap_nonblank for ALL instructions on a model of textwrap's chunking with the constants regenerated from misc.py (consts_ok), FVAR/SFAC printers emit keyword + parameters; exhaustive boundary grid and written files (wrap options, threshold and glue read by recording textwrap.TextWrapper.wrap calls)",
          "tabs not modelled; correspondence compares the exact text of wrap_line; file-level 'no bare line' is proved for FVAR/SFAC printers and observed for the rest"),
  'C07': ("order_preserved, raw_verbatim, write_fixpoint, include_transparent/include_no_accumulation over all line lists, printers and file systems (induction), fmtFixed idempotence and FVAR chunking proved; bytes of read/write cycles compared, with include files on disk",
          "printers abstract in the theorems (PrinterOk/Stable/htv hypotheses checked byte for byte by the harness); nested includes not modelled"),
- 'C08': ("invariant Inv8 (positions hold the very object, ids unique, by-id/by-name lookups, deleted atoms absent) established by parse and preserved by every operation for ALL histories (history_inv), reread_resets/history_independent; invariant evaluated on the real object graph after every step, class-level state compared",
+ 'C08': ("invariant Inv8 (positions hold the very object, ids unique, by-id/by-name lookups, deleted atoms absent) established by parse and preserved by every operation for ALL histories (history_inv), reread_resets/history_independent; invariant evaluated on the real object graph after every step, class-level state compared; attrs_history/read_attrs_spec: every instruction-valued attribute after any history equals the specification of the file read last",
          "op alphabet: read, delete, add_line, rename, element, to_isotropic, setters; replace_line/add_atom/insert_frag_fend_entry not modelled"),
  'C09': ("occ_eq_rule, pair_sums_to_p, sum_exact_spec, unit_formula_spec over all codes, FVAR lists and atom lists; generated files through the real API, full m x p grid in the thorough tier; src_ theorems: Atom.occupancy and sum_formula_exact_as_dict TRACED through read_string equal the model on every free-variable branch",
          "exact rational arithmetic (implementation compared at 1e-7); codes with <= 8 decimals; SFAC list duplicate free"),
- 'C10': ("parse_denote by induction over the component grammar (numerals of any length, any layout), print_parse_id, eq_iff_mod_lattice, card_components; the bounded grammar (40 836 components) enumerated exhaustively on the real parser in both tiers",
+ 'C10': ("parse_denote by induction over the component grammar (numerals of any length, any layout), print_parse_id, eq_iff_mod_lattice, card_components; the bounded grammar (40 836 components) enumerated exhaustively on the real parser in both tiers; history_refines/history_roundtrip/history_eq over operator objects the library makes itself (centric copies, apply_latt_symm chains, re-parsed prints)",
          "translations exact in the model, float(n)/float(d) compared at 1e-12; round trip of thirds/sixths by harness only"),
- 'C11': ("expand_perm (each operator of the full group exactly once), expand_card, expand_nodup, expand_closed for every valid setting; centring table regenerated from cards.py and proved equal to the manual's (lattTable_matches_manual); 43 tabulated settings by decide +kernel; operator multisets of the real parser compared",
+ 'C11': ("expand_perm (each operator of the full group exactly once), expand_card, expand_nodup, expand_closed for every valid setting; centring table regenerated from cards.py and proved equal to the manual's (lattTable_matches_manual); 43 tabulated settings by decide +kernel; operator multisets of the real parser compared; expand_shifted/tabulated_settings_shifted: every tabulated setting at every origin u in Q^3",
          "ValidSetting: |LATT| in 1..7 and SYMM lines pairwise distinct modulo centring/inversion; operator order not observed"),
  'C12': ("identities over the reals for the literal entries of the code: ortho_upper/unique/gram/metric/det/inverse, frac_to_cart_agrees, cart_frac_inverse, distance_agrees, recip_spec, ueq_is_third_trace, sylvester, posdef_congr, is_npd_iff; cells, points and tensors compared at 1e-9 with an exact Sylvester oracle; 26 src_ theorems: Matrix/Array/OrthogonalMatrix operations, vol_unitcell, frac_to_cart/cart_to_frac, atomic_distance and the parsed CELL/Atom observables (cart_coords, ucif, ustar, u_cart, ueq, inverses after cell.set) TRACED from the working tree equal the model for all real inputs",
          "partial: exact arithmetic only; math.cos/sin/sqrt enter through their algebraic relations; float rounding is measured, not proved"),
@@ -39,11 +39,11 @@ C = {
          "partial: exact arithmetic; sqrt/acos/round as parameters with recorded assumptions; -180 for trans-planar quadruples is an open known finding"),
  'C16': ("slots_match_syntax by decide +kernel over the REGENERATED slot table of every card __init__ against a code-independent syntax table, table_attr_spec/run_get (generic interpretation lemma), setter round trips; every form of every object-backed instruction with distinct non-default values, with/without DEFS (the slot table is synthesised from probing every card class with 0..16 symbolic tokens, with/without symbolic DEFS)",
          "11 residual classes hand-modelled or left out (listed in evidence); DefsOK is a hypothesis checked by the attrs stream"),
- 'C17': ("warnings_eq_missing, assign_spec, message_iff, no_warning_if_all_exist, wildcards_never_reported for every atom list, residue registry and restraint; all keywords x addressing modes x residue layouts on the real parser",
+ 'C17': ("warnings_eq_missing, assign_spec, message_iff, no_warning_if_all_exist, wildcards_never_reported for every atom list, residue registry and restraint; all keywords x addressing modes x residue layouts on the real parser; layout_warnings_eq_missing/layout_invariant_diagnostics: the model starts at the physical lines (every legal layout of a restraint), named_eq_missing",
          "WellFormed excludes malformed suffixes (decidable, returned per case); '_*' means residues defined by RESI"),
  'C18': ("cif_ops_denote (decide +kernel over the complete table of rows x translations k/12 for the printing mode read off the source), double_rows_denote through a model of limit_denominator, cif_total, cif_values_eq_model, loop theorems; CIFs of generated files parsed by an independent reader (dict keys, template tags and the fraction bound are what the export really used: string.Template and Fraction.limit_denominator instrumented)",
          "translations k/12, |k| <= 24; general correctness of limit_denominator not proved; tags regenerated from template and dict"),
- 'C19': ("protocol state machine over an abstract file system: failure_restores, success_reloads, acta_after_unit, ins_is_model, no_stale_restore, failure_keeps_model, history_meets_spec by induction over call histories for ALL contents/outcomes; complete outcome x backup x ACTA x cycles grid driven against a scripted shelxl",
+ 'C19': ("protocol state machine over an abstract file system: failure_restores, success_reloads, acta_after_unit, ins_is_model, no_stale_restore, failure_keeps_model, history_meets_spec by induction over call histories for ALL contents/outcomes; complete outcome x backup x ACTA x cycles grid driven against a scripted shelxl; line-list model under the abstract ACTA (lines_after_good_run, putActa_*), output_cannot_abort (what SHELXL prints and the .lst have no influence)",
          "atomic abstract file system (no partial writes, permissions, concurrency); result files of 1-9 bytes excluded (plausible)"),
  'C20': ("q2mat_proper, horn_identity (for the matrix the code builds), top_eigvec_optimal, rmsd_optimal, exact_copy_zero_rmsd, fit_fragment_places, jacobi_step_invariant over the reals; per-case optimality certificate (eigen-residual, pivots, sampled rotations) on the real code; jacobi_total; 10 src_ theorems: q2mat, transpose, rotmol, the quadratic form handed to jacobi, centroid, +-vect, rmsd TRACED from the working tree equal the model",
          "partial: exact arithmetic; Jacobi convergence certified per case, not proved; every proper rotation being q2mat of a unit quaternion is a hypothesis (hsurj)"),
